@@ -229,16 +229,52 @@ class SampleRecorder:
     def __exit__(self, *a):
         random.sample = self.orig
 
+# Presentation of explicit integer edge ids.  A numpy integer or a whole float is, as a dict key, the
+# same id as the Python int (equal and equal hash), so the model's LInt stands for all of them; when
+# PRESENT is a random.Random the implementation is handed the id in one of these types and the
+# observation is normalised back, so the correspondence also covers the counter's treatment of
+# "integer-like" ids (update_uid_counter).
+PRESENT = None
+
+def _pres(i):
+    if PRESENT is None or not isinstance(i, int) or isinstance(i, bool):
+        return i
+    r = PRESENT.random()
+    if r < 0.4:
+        return i
+    import numpy as np
+    return np.int64(i) if r < 0.75 else float(i)
+
+def _norm(x):
+    if PRESENT is None:
+        return x
+    import numpy as np
+    if isinstance(x, bool):
+        return x
+    if isinstance(x, np.integer):
+        return int(x)
+    if isinstance(x, (float, np.floating)) and float(x).is_integer():
+        return int(x)
+    if isinstance(x, tuple):
+        return tuple(_norm(y) for y in x)
+    if isinstance(x, list):
+        return [_norm(y) for y in x]
+    if isinstance(x, (set, frozenset)):
+        return type(x)(_norm(y) for y in x)
+    if isinstance(x, dict):
+        return {k: _norm(v) for k, v in x.items()}
+    return x
+
 def bunch_arg(fmt, items):
     if fmt == 1:
         return [list(ms) for ms in items]
     if fmt == 2:
-        return [(list(ms), i) for ms, i in items]
+        return [(list(ms), _pres(i)) for ms, i in items]
     if fmt == 3:
         return [(list(ms), dict(a)) for ms, a in items]
     if fmt == 4:
-        return [(list(ms), i, dict(a)) for ms, i, a in items]
-    return {i: list(ms) for i, ms in items}
+        return [(list(ms), _pres(i), dict(a)) for ms, i, a in items]
+    return {_pres(i): list(ms) for i, ms in items}
 
 def apply_op(H, op):
     """Run one op on the implementation.  Returns (extra, exception name or None, #warnings);
@@ -253,7 +289,7 @@ def apply_op(H, op):
             if name == "add_edge":
                 _, ms, idx, a = op
                 extra = list(set(ms))
-                H.add_edge(list(ms), idx=idx, **a) if idx is not None else H.add_edge(list(ms), **a)
+                H.add_edge(list(ms), idx=_pres(idx), **a) if idx is not None else H.add_edge(list(ms), **a)
             elif name == "add_edges_from":
                 _, fmt, items, a = op
                 H.add_edges_from(bunch_arg(fmt, items), **a)
@@ -418,25 +454,25 @@ def observe(H):
     try:
         nodes = list(H.nodes)
         memb = H.nodes.memberships()
-        ob["nodes"] = [(n, set(memb[n])) for n in nodes]
+        ob["nodes"] = [(n, _norm(set(memb[n]))) for n in nodes]
         na = []
         for n in nodes:
             try:
-                na.append(dict(H.nodes[n]))
+                na.append(_norm(dict(H.nodes[n])))
             except IDNotFound:
                 na.append(None)
         ob["nattr"] = na
         edges = list(H.edges)
         mem = H.edges.members(dtype=dict)
-        ob["edges"] = [(e, set(mem[e])) for e in edges]
+        ob["edges"] = [(_norm(e), set(mem[e])) for e in edges]
         ea = []
         for e in edges:
             try:
-                ea.append(dict(H.edges[e]))
+                ea.append(_norm(dict(H.edges[e])))
             except IDNotFound:
                 ea.append(None)
         ob["eattr"] = ea
-        ob["net"] = dict(H._net_attr)
+        ob["net"] = _norm(dict(H._net_attr))
         ob["uid"] = peek_uid(H)
         ob["extra_attr_records"] = (sorted(map(repr, set(H._node_attr) - set(H._node))),
                                     sorted(map(repr, set(H._edge_attr) - set(H._edge))))
@@ -468,7 +504,7 @@ def run_history(ops_or_gen, length=None, rng=None, style=None, malformed=False, 
     for i in range(n):
         if freeze_at is not None and i == freeze_at:
             H.freeze()
-        op = gen_op(rng, H, nodes, eids, malformed) if ops_or_gen is None else ops_or_gen[i]
+        op = _norm(gen_op(rng, H, nodes, eids, malformed)) if ops_or_gen is None else ops_or_gen[i]
         extra, exc, nwarn = apply_op(H, op)
         ob = observe(H)
         rec["ops"].append(op); rec["extras"].append(extra); rec["obs"].append(ob)
